@@ -176,3 +176,25 @@ def copy_tree(src: Path, dst: Path):
 
 def det_of(k):
     return "DSemgrep" if SNIPPETS.get(k, ("none",))[0] == "semgrep" else "DNone"
+
+
+LIFT_THEOREMS = ["C03_unchanged", "C01_lift", "C02_lift", "C07_lift"]
+
+
+def audit_lifts(ctx):
+    """Proofs/RunLift.v is cited by C01/C02/C07/C03: its theorems must be closed too (Print Assumptions read back)."""
+    lines = ["From CM Require Import Proofs.RunLift."]
+    for t in LIFT_THEOREMS:
+        lines.append(f'Goal True. idtac "@@BEGIN {t}". exact I. Qed.')
+        lines.append(f"Print Assumptions {t}.")
+        lines.append(f'Goal True. idtac "@@END {t}". exact I. Qed.')
+    rc_, out = core.coqc_scratch(ctx, "audit_runlift", "\n".join(lines) + "\n")
+    if rc_ != 0:
+        ctx.tie_broken.append("proof: Proofs/RunLift.v (lifting lemmas) no longer checks: " + out[-300:])
+        return
+    import re
+    for t in LIFT_THEOREMS:
+        m = re.search(rf"@@BEGIN {t}\n(.*?)@@END {t}", out, flags=re.S)
+        if not m or "Closed under the global context" not in m.group(1):
+            ctx.tie_broken.append(f"axioms: {t} (Proofs/RunLift.v) is not closed under the global context")
+    ctx.notes.append("Proofs/RunLift.v: " + ", ".join(LIFT_THEOREMS) + " closed under the global context")
